@@ -15,3 +15,5 @@ func hookPacketizerTimestamp(p rtp.Packetizer) (uint32, bool)            { retur
 func hookRetainedH264Payloader(p *codecs.H264Payloader) ([][]byte, bool) { return nil, false }
 func hookRetainedH264Packet(p *codecs.H264Packet) ([][]byte, bool)       { return nil, false }
 func hookRetainedAV1(p *codecs.AV1Depacketizer) ([][]byte, bool)         { return nil, false }
+
+func hookSetSequencerState(s rtp.Sequencer, last uint16, roll uint64) bool { return false }
